@@ -82,7 +82,10 @@ wasteful for just few samples."""
 
 
 def all_clauses(k, n, planted_assignments):
-    for domain in itertools.combinations(range(1, n+1), k):
+    # (itertools.combinations makes a copy of the variables first,
+    # even if no variable is needed)
+    domains = [()] if k == 0 else itertools.combinations(range(1, n+1), k)
+    for domain in domains:
         for polarity in itertools.product([-1, 1], repeat=k):
 
             cls = [p*v for p,v in zip(polarity,domain)]
